@@ -22,8 +22,8 @@ from .. import instrs as I
 from . import c12
 from ..model import AnalysisError, EnumMember, NamedTupleType, Unknown, dotted, src
 
-TECHNIQUE = "AST table agreement (index constants vs namedtuple fields), coercion- and forwarding-completeness rules, operand-role agreement (static analysis)"
-ENGINES = ["model", "instrs"]
+TECHNIQUE = "AST table agreement (index constants vs namedtuple fields), coercion- and forwarding-completeness rules, operand-role agreement; abstract interpretation of small functions over an enumerated finite domain by the checker's own AST interpreter (static analysis)"
+ENGINES = ["model", "instrs", "circuit"]
 EXPLANATION = (
     "Index constants of sdk/build_epr.py are evaluated and compared with the field positions of LinkLayerCreate / LinkLayerOKTypeK / "
     "LinkLayerOKTypeM (qlink_compat.py), lengths with network_stack's *_FIELDS; serialize_request's slot assignments and the "
